@@ -78,6 +78,83 @@ pub fn regex_patterns(_run: &Run) -> Acc {
         .reduce(Acc::new, Acc::merge)
 }
 
+/// programmatically built name selectors: the text of a `Selector::Name` can be anything when the query does not come
+/// from the parser (unquoted, quoted, with escapes cut short, with unpaired quotes); evaluation must return Ok
+pub fn built_names(_run: &Run) -> Acc {
+    use rayon::prelude::*;
+    let mut texts: Vec<String> = crate::gen::docs::odd_names();
+    let toks = ["\\\\", "\\", "u", "\\u", "\\uD83D", "\\u00", "'", "\"", "a", "\u{e9}", "\\n", "/", "\u{1d11e}"];
+    for a in toks {
+        texts.push(a.to_string());
+        for b in toks {
+            texts.push(format!("{}{}", a, b));
+            for c in toks {
+                texts.push(format!("{}{}{}", a, b, c));
+            }
+        }
+    }
+    texts.sort();
+    texts.dedup();
+    texts
+        .par_iter()
+        .map(|t| {
+            let mut acc = Acc::new();
+            let docs = [json!({t.as_str(): 1, "a": {t.as_str(): [2]}}), json!([{t.as_str(): 1}, 1]), json!("s"), json!({"a": 1})];
+            for raw in [t.clone(), format!("'{}'", t), format!("\"{}\"", t), format!("'{}", t), format!("{}\"", t)] {
+                let sel = Selector::Name(raw.clone());
+                let qs = [
+                    JpQuery::new(vec![Segment::Selector(sel.clone())]),
+                    JpQuery::new(vec![Segment::Descendant(Box::new(Segment::Selector(sel.clone())))]),
+                    JpQuery::new(vec![Segment::Selectors(vec![sel.clone(), Selector::Wildcard, sel.clone()])]),
+                    JpQuery::new(vec![Segment::Selector(Selector::Wildcard), Segment::Selector(sel.clone())]),
+                ];
+                for (k, jq) in qs.iter().enumerate() {
+                    for d in &docs {
+                        acc.evals += 1;
+                        let am = AddrMap::new(d);
+                        let o = imp::run_parsed(jq, d, &am);
+                        match o {
+                            ImplOut::Ok(v) => {
+                                if !v.is_empty() {
+                                    acc.nontrivial += 1;
+                                }
+                            }
+                            other => {
+                                acc.viol(
+                                    format!("programmatically built name selector {:?} (shape {}) on {}: {}", raw, k, d, other.short()),
+                                    json!({"kind": "built-name", "class": "built name selectors", "raw": raw, "shape": k, "doc": d}),
+                                );
+                                return acc;
+                            }
+                        }
+                    }
+                }
+            }
+            acc
+        })
+        .reduce(Acc::new, Acc::merge)
+}
+
+pub fn replay_built_name(case: &Value, _run: &Run) -> Acc {
+    let mut acc = Acc::new();
+    let raw = case["raw"].as_str().unwrap_or("").to_string();
+    let sel = Selector::Name(raw.clone());
+    let jq = match case["shape"].as_u64().unwrap_or(0) {
+        0 => JpQuery::new(vec![Segment::Selector(sel)]),
+        1 => JpQuery::new(vec![Segment::Descendant(Box::new(Segment::Selector(sel)))]),
+        2 => JpQuery::new(vec![Segment::Selectors(vec![sel.clone(), Selector::Wildcard, sel])]),
+        _ => JpQuery::new(vec![Segment::Selector(Selector::Wildcard), Segment::Selector(sel)]),
+    };
+    let doc = &case["doc"];
+    let am = AddrMap::new(doc);
+    let o = imp::run_parsed(&jq, doc, &am);
+    println!("built name {:?} on {} : {}", raw, doc, o.short());
+    if !matches!(o, ImplOut::Ok(_)) {
+        acc.viol(format!("built name selector {:?} on {}: {}", raw, doc, o.short()), case.clone());
+    }
+    acc
+}
+
 pub fn replay_eval_ok(case: &Value, _run: &Run) -> Acc {
     let mut acc = Acc::new();
     let q = case["query"].as_str().unwrap_or("$");
